@@ -180,7 +180,7 @@ class Interp:
             "any": PyFunc(lambda seq: any(self.truth(x) for x in list(seq)), "any", True),
             "all": PyFunc(lambda seq: all(self.truth(x) for x in list(seq)), "all", True), "hasattr": PyFunc(self._hasattr, "hasattr", True), "format": PyFunc(format, "format"),
             "bin": PyFunc(bin, "bin"), "hex": PyFunc(hex, "hex"), "set": PyFunc(self._set, "set", True),
-            "object": ClassRef("object"), "slice": PyFunc(slice, "slice"), "Ellipsis": Ellipsis,
+            "object": ClassRef("object"), "id": PyFunc(lambda o: id(o), "id", True), "slice": PyFunc(slice, "slice"), "Ellipsis": Ellipsis,
             "filter": PyFunc(lambda f, seq: [x for x in list(seq) if self.truth(self.call(f, [x], {}) if f is not None else x)], "filter", True),
             "map": PyFunc(lambda f, *seqs: [self.call(f, list(xs), {}) for xs in zip(*[list(q) for q in seqs])], "map", True), "iter": PyFunc(iter, "iter"), "next": PyFunc(next, "next"),
             "print": PyFunc(lambda *a, **k: None, "print", True),
